@@ -320,6 +320,10 @@ fn cli_key_spellings(ctx: &Ctx) {
                     ctx.inconclusive("C17 cli: timeout");
                     continue;
                 }
+                if !matches!(e.exit, Exit::Code(0) | Exit::Code(1)) {
+                    ctx.violation(&format!("C17:cli:parser-or-key-decoder-crash:{}", e.exit.describe().replace(' ', "-")), case(json!(null)));
+                    continue;
+                }
                 if !is_alices_key {
                     // refused, unusable, or read as some other key: no second spelling of alice's key was accepted
                     ctx.seen("cli: other spelling of a public key is not accepted as that key");
